@@ -1,6 +1,10 @@
 // ---- prelude for src/value/value/crud/mod.rs (array element operations) -----------------
 pub struct Opaque { pub id: u64 }
 pub enum Value { Null, Boolean(bool), Integer(i64), Other(Opaque) }
+impl Clone for Value {
+    #[verifier::external_body]
+    fn clone(&self) -> (r: Self) ensures r == *self { unimplemented!() }
+}
 
 pub open spec fn nulls(n: nat) -> Seq<Value> { Seq::new(n, |i: int| Value::Null) }
 
@@ -32,3 +36,4 @@ pub open spec fn opt_val(o: Option<&Value>) -> Option<Value> { match o { Some(v)
 
 pub assume_specification<T> [std::mem::replace::<T>](dest: &mut T, src: T) -> (r: T)
     ensures *final(dest) == src, r == *old(dest);
+
